@@ -19,7 +19,7 @@ const KEYWORDS: [&str; 30] = [
 /// standard constants appended to every program so that replacements can refer to them
 const EXTRA_CONSTS: &str = "    let SA = [1, 2, 3]\n    let SS = \"txt\"\n    let SB = true\n    let SN = [[1, 2], [3]]\n    let SG = Graph {\n        P -> [Q: 2],\n        Q\n    }\n    let SF = 2.5\n";
 
-const REPLACEMENTS: [(&str, &str); 30] = [
+const REPLACEMENTS: [(&str, &str); 38] = [
     ("\"str\"", "string"),
     ("SS", "string"),
     ("true", "boolean"),
@@ -50,6 +50,14 @@ const REPLACEMENTS: [(&str, &str); 30] = [
     ("zz", "undeclared-identifier"),
     ("zz_1", "undeclared-compound"),
     ("neigh_edges_of(SS, SG)", "neigh-edges-of-missing-node"),
+    ("union(1, 2)", "set-function-of-numbers"),
+    ("difference(3, SA)", "set-function-of-number-and-array"),
+    ("intersection(SA, 2)", "set-function-of-array-and-number"),
+    ("union(SA, SA)", "set-function-call"),
+    ("union(SA, SS)", "set-function-of-array-and-string"),
+    ("range(0, 2, 1)", "range-with-numeric-flag"),
+    ("range(0, 2, true)", "range-call"),
+    ("range(SA, 2, true)", "range-from-array"),
 ];
 
 #[derive(Debug, Clone)]
